@@ -507,7 +507,14 @@ def _t2(ctx: Context) -> None:
     scfg = ctx.cfg(ss.qualname)
     sp = ("param", ss.pos_params[1])
     salt_w = [(n, strip_sites(T.of(scfg, n, n.ast.value))) for n in scfg.nodes if n.kind == "stmt" and isinstance(n.ast, ast.Assign) and _u(n.ast.targets[0]) == "self.salt"]
-    okw = {w[1] for w in salt_w} == {big(sp), sp}
+    def _arms(t):  # what a conditional expression / several definitions can give
+        if t[0] == "ifexp":
+            return _arms(t[2]) + _arms(t[3])
+        if t[0] == "phi":
+            return [a for x in t[1] for a in _arms(x)]
+        return [t]
+
+    okw = {a for w in salt_w for a in _arms(w[1])} == {big(sp), sp}
     sb = [(n, strip_sites(T.of(scfg, n, n.ast.value))) for n in scfg.nodes if n.kind == "stmt" and isinstance(n.ast, ast.Assign) and _u(n.ast.targets[0]) == "self.salt_b"]
     okb = len(sb) == 1 and sb[0][1] == call(PAD, call(TBA, S("salt")), ("const", 16))
     xs = [(n, strip_sites(T.of(scfg, n, n.ast.value))) for n in scfg.nodes if n.kind == "stmt" and isinstance(n.ast, ast.Assign) and _u(n.ast.targets[0]) == "self.x"]
